@@ -514,6 +514,7 @@ func runC05(cfg Config) {
 	// the reading side of LocalFS against the model of the directory walk (lfsread.go)
 	lfsReadCases(cfg, rep, m, rand.New(rand.NewSource(cfg.Seed^0x1f5)), cfg.N(30, 800))
 	c05CLI(cfg, rep, rng)
+	cliGlobalFlags(cfg, rep, rand.New(rand.NewSource(cfg.Seed^0x676c6f62))) // cliarch.go: the global options in front of the archive commands
 	rep.Write(cfg.Out)
 }
 
